@@ -290,3 +290,10 @@ Proof.
   - intros E. apply (f_equal vx) in E. cbn in E. Lra.lra.
   - exists 3%R. split; [Lra.lra|]. apply vec_eq; cbn; Lra.lra.
 Qed.
+
+(* ---- tie to the source by regeneration (DESIGN.md 4.2): common.CalculateArithmeticShift translated from /repo's current source is Base.ashift ---- *)
+From SIDGen Require Generated.
+From SID Require GenTac.
+Theorem C20_generated_arithmetic_shift_is_the_model : forall i s, Generated.CalculateArithmeticShift i s = Base.ashift i s.
+Proof. exact GenTac.gen_CalculateArithmeticShift_eq. Qed.
+Print Assumptions C20_generated_arithmetic_shift_is_the_model.
